@@ -23,6 +23,28 @@ class Nondeterminism(RuntimeError):
     """Replay of a recorded prefix met a different choice point: infrastructure error."""
 
 
+def sdk_origin(e: BaseException) -> list[str] | None:
+    """If ``e`` was raised inside the code under test (the innermost frames of its traceback, after the last
+    harness frame, belong to the SDK), return those frames as ``file:line`` strings, else None."""
+    import traceback
+
+    frames = traceback.extract_tb(e.__traceback__)
+    last_harness = max((i for i, f in enumerate(frames) if "/mc/" in f.filename and "/frequenz/" not in f.filename), default=-1)
+    tail = frames[last_harness + 1:]
+    sdk = [f for f in tail if "/frequenz/sdk/" in f.filename]
+    if not sdk:
+        return None
+    return [f"{f.filename.split('/frequenz/sdk/')[-1] if '/frequenz/sdk/' in f.filename else f.filename.split('/')[-1]}:{f.lineno}"
+            for f in tail][-4:]
+
+
+CRASH_CLAUSE = "sdk_call_does_not_raise"
+
+
+def crash_detail(e: BaseException, where: list[str]) -> dict:
+    return {"exception": repr(e)[:400], "raised_at": where}
+
+
 class Chooser:
     def __init__(self, prefix: list[int] | tuple[int, ...] = (), labels: list | None = None):
         self.prefix = list(prefix)
@@ -88,7 +110,7 @@ def _dfs(scenario: Callable[[Chooser], Observation], root: list[int], bound: int
             break
         prefix = stack.pop()
         ch = Chooser(prefix)
-        obs = scenario(ch)
+        obs = run_scenario(scenario, ch)
         n += 1
         record(acc, obs, ch, mkcase, classes)
         devs = 0
@@ -104,6 +126,24 @@ def _dfs(scenario: Callable[[Chooser], Observation], root: list[int], bound: int
                     stack.append(base + [alt])
         if n % 2000 == 0:
             gc.collect()
+
+
+def run_scenario(scenario, ch: Chooser) -> Observation:
+    """One execution; an exception raised by the SDK into a synchronous harness call is a violation of the
+    execution (with the schedule as its witness), not a failure of the check."""
+    try:
+        return scenario(ch)
+    except Nondeterminism:
+        raise
+    except (KeyboardInterrupt, SystemExit, MemoryError):
+        raise
+    except BaseException as e:  # noqa: BLE001
+        where = sdk_origin(e)
+        if where is None:
+            if isinstance(e, Exception):
+                raise
+            raise RuntimeError(f"BaseException escaped from the scenario: {e!r}") from e
+        return Observation(outcome="sdk-exception", violations=[(CRASH_CLAUSE, crash_detail(e, where))])
 
 
 def record(acc: Acc, obs: Observation, ch: Chooser, mkcase, classes=None) -> None:
@@ -165,7 +205,7 @@ def explore(scenario: Callable[[Chooser], Observation], bound: int, mkcase: Call
     while frontier and len(frontier) + len(roots) < fanout and expanded < 4 * fanout:
         prefix, _ = frontier.pop(0)
         ch = Chooser(prefix)
-        obs = scenario(ch)
+        obs = run_scenario(scenario, ch)
         expanded += 1
         record(acc, obs, ch, mkcase, classes)
         devs = 0
@@ -194,7 +234,9 @@ def replay_choices(scenario: Callable[[Chooser], Observation], choices: list[int
                    labels: list | None = None) -> Observation:
     """Re-execute exactly one recorded schedule (no search)."""
     ch = Chooser(choices, labels)
-    obs = scenario(ch)
+    obs = run_scenario(scenario, ch)
+    if obs.outcome == "sdk-exception":
+        return obs
     if len(ch.trace) < len(choices):
         raise Nondeterminism("execution ended before the recorded schedule was consumed")
     return obs
@@ -227,9 +269,48 @@ def determinism_selfcheck(scenario: Callable[[Chooser], Observation], k: int = 6
 # ---------------------------------------------------------------------------
 
 
+def run_shard(fn, shard) -> Acc:
+    """``fn(shard)``; an exception raised by the SDK into a synchronous harness call becomes a violation whose
+    witness is the shard itself (re-run by ``--replay``)."""
+    try:
+        return fn(shard)
+    except Nondeterminism:
+        raise
+    except (KeyboardInterrupt, SystemExit, MemoryError):
+        raise
+    except BaseException as e:  # noqa: BLE001
+        where = sdk_origin(e)
+        if where is None:
+            if isinstance(e, Exception):
+                raise
+            # a pool worker that dies with a BaseException makes the parent wait for ever
+            raise RuntimeError(f"BaseException escaped from shard {shard!r}: {e!r}") from e
+        import base64
+        import pickle
+
+        acc = Acc()
+        acc.evaluations += 1
+        acc.clauses[CRASH_CLAUSE] += 1
+        case = {"crash_in_shard": {"module": fn.__module__, "fn": fn.__qualname__,
+                                   "shard_pickle": base64.b64encode(pickle.dumps(shard)).decode(), "shard": repr(shard)[:300]}}
+        acc.violation(Violation(CRASH_CLAUSE, case, crash_detail(e, where)))
+        return acc
+
+
+def replay_crash(case: dict):
+    import base64
+    import importlib
+    import pickle
+
+    c = case["crash_in_shard"]
+    fn = getattr(importlib.import_module(c["module"]), c["fn"])
+    acc = run_shard(fn, pickle.loads(base64.b64decode(c["shard_pickle"])))
+    return [(v.clause, v.detail) for v in acc.violations.values()]
+
+
 def _shard_worker(args):
     fn_name, shard = args
-    return _G["shard_fns"][fn_name](shard)
+    return run_shard(_G["shard_fns"][fn_name], shard)
 
 
 def pmap_acc(fn: Callable[[Any], Acc], shards: list, workers: int) -> Acc:
@@ -237,7 +318,7 @@ def pmap_acc(fn: Callable[[Any], Acc], shards: list, workers: int) -> Acc:
     acc = Acc()
     if workers <= 1 or len(shards) <= 1:
         for s in shards:
-            acc.merge(fn(s))
+            acc.merge(run_shard(fn, s))
         return acc
     _G.setdefault("shard_fns", {})[fn.__qualname__] = fn
     ctx = mp.get_context("fork")
